@@ -39,10 +39,48 @@ def names_term(c, ns="TEST"):
 
 
 def score_of(text, cert):
+    """(holder, objective) of a variable as written in the source: the selector is CLEANED (ExprSpec.score_of)"""
     if text.startswith("$"):
         return (text, cert["VAR"])
     obj, sel = text.split(":", 1)
-    return (sel, obj)
+    return (G.clean_sel(sel), obj)
+
+
+# mcvm splits a command on single blanks.  A holder may contain one (`@e[name="a b",limit=1]`), and Minecraft
+# itself skips blanks between selector arguments: the emitted text is re-worded for the VM — words are split
+# outside brackets / quoted strings, every bracketed word is cleaned, its remaining blanks protected.
+BLANK = "\u2423"
+
+
+def vm_holder(h: str) -> str:
+    return G.clean_sel(h).replace(" ", BLANK) if "[" in h else h
+
+
+def vm_text(text: str) -> str:
+    lines = []
+    for line in text.split("\n"):
+        words, cur, depth, in_string = [], "", 0, False
+        for ch in line:
+            if in_string:
+                in_string = ch != '"'
+            elif ch == '"':
+                in_string = True
+            elif ch in "[{":
+                depth += 1
+            elif ch in "]}":
+                depth -= 1
+            elif ch == " " and depth <= 0:
+                words.append(cur)
+                cur = ""
+                continue
+            cur += ch
+        words.append(cur)
+        lines.append(" ".join(vm_holder(w) for w in words))
+    return "\n".join(lines)
+
+
+def vm_key(score):
+    return (vm_holder(score[0]), score[1])
 
 
 # ------------------------------------------------------------------ cases
@@ -94,11 +132,18 @@ def gen_cases(rng, tier):
         r = rng.choice(d1) if (shape != 0 and op != "**") else rng.choice(L)   # exponents stay literals/variables
         form = rng.choice(["", "", "", "+", "-", "*", "/", "%"])
         cases.append(mk_case(("bin", op, l, r), "$x", form, 0, rng, rng.choice([0, 1])))
+    # (i') bracketed selectors: every (target spelling, operand spelling) pair of one holder in thirteen shapes
+    for k, (e, target, form, _pair) in enumerate(G.spelling_cases()):
+        cases.append(mk_case(e, target, form, 1 if k % 7 == 3 else 0, rng, [0, 0, 1, 2][k % 4]))
+        cases[-1]["pair"] = _pair
     # (iii) flat chains (shunting-yard / optimize_const grouping)
     nch = 500 if tier == "quick" else 8000
     for _ in range(nch):
         target = rng.choice(["$x", "$x", "obj:@s"])
         pool = ["$a", "$b", target, "obj2:@p"]
+        if rng.random() < 0.12:
+            target, same, diff = G.spelled_pool(rng)
+            pool = ["$a", "$b"] + same + diff[:1]
         e = G.chain_expr(rng, target, rng.choice([CONSTS_SMALL, CONSTS_SMALL, CONSTS_EDGE]), pool)
         form = rng.choice(["", "", "", "+", "-", "*", "/", "%"])
         cases.append(mk_case(e, target, form, rng.choice([0, 0, 1]), rng, rng.choice([0, 1, 2])))
@@ -107,6 +152,12 @@ def gen_cases(rng, tier):
     for _ in range(nr):
         target = rng.choice(["$x", "$x", "$x", "obj:@s", "obj_3:@e[tag=t,limit=1]"])
         pool = ["$a", "$b", "$c", target, target, "obj2:@p"]
+        if rng.random() < 0.12:
+            t2, same, diff = G.spelled_pool(rng)
+            if rng.random() < 0.3:          # bracketed operands of a plain target
+                pool = ["$a", target, target] + same + diff
+            else:
+                target, pool = t2, ["$a", "$b", "$c"] + same + diff
         consts = rng.choice([CONSTS_SMALL, CONSTS_SMALL, CONSTS_SMALL, CONSTS_EDGE])
         e = G.random_expr(rng, target, rng.choice([2, 3, 3, 4, 5]), consts, pool)
         form = rng.choice(["", "", "", "+", "-", "*", "/", "%"])
@@ -116,6 +167,9 @@ def gen_cases(rng, tier):
     for _ in range(na):
         target = rng.choice(["$x", "$x", "obj:@s"])
         pool = rng.choice([["$a", "$b", "$c"], ["$a", "$b", target], ["$a", target, target], [target]])
+        if rng.random() < 0.15:
+            target, same, diff = G.spelled_pool(rng)
+            pool = rng.choice([["$a", "$b"] + same, ["$a"] + same + diff, same, same + diff[:1]])
         e = G.random_arith(rng, rng.choice([2, 3, 4, 5, 6]), pool)
         cases.append(mk_case(e, target, rng.choice(G.FORMS), rng.choice([0, 0, 1]), rng, rng.choice([0, 1, 2])))
     # (v) adversarial: boundary literals in every position of a binary operation, all forms
@@ -126,6 +180,11 @@ def gen_cases(rng, tier):
                 cases.append(mk_case(("bin", op, ("v", "$a"), ("c", z)), "$x", form, 0, rng, 0))
                 cases.append(mk_case(("bin", op, ("c", z), ("v", "$a")), "$x", form, 0, rng, 0))
                 cases.append(mk_case(("bin", op, ("bin", op, ("v", "$a"), ("c", z)), ("c", 2)), "$x", form, 0, rng, 0))
+    for c in cases:
+        vs = G.vars_of(c["e"]) | {c["target"]}
+        c["bracketed"] = any(G.is_bracketed(v) for v in vs)
+        # the target occurs in the expression under a spelling that is not the target's own
+        c["respelled"] = any(v != c["target"] and G.canon_var(v) == G.canon_var(c["target"]) for v in G.vars_of(c["e"]))
     return cases, n_exh
 
 
@@ -157,12 +216,14 @@ GRID = [0, 1, -1, 2, 3, -3, 7, 100, -100, INT_MAX, INT_MIN, 46341, -5]
 
 
 def states_for(c, rng, n=12):
-    vs = sorted(G.vars_of(c["e"]) | {c["target"], "$bystander"})
+    names = sorted(G.vars_of(c["e"]) | {c["target"], "$bystander"})
+    # spellings that clean to the same holder are ONE score: values are chosen per canonical variable
+    vs = sorted({G.canon_var(v) for v in names})
     out = [{v: 0 for v in vs}, {v: 1 for v in vs}, {v: k + 2 for k, v in enumerate(vs)},
            {v: -(k + 3) for k, v in enumerate(vs)}]
     while len(out) < n:
         out.append({v: (rng.choice(GRID) if rng.random() < 0.8 else rng.randint(-50, 50)) for v in vs})
-    return out
+    return [{v: env[G.canon_var(v)] for v in names} for env in out]
 
 
 def run_state(c, env):
@@ -187,20 +248,20 @@ def run_state(c, env):
     for n in c["ints"]:
         vm.s[(str(n), cert["INT"])] = n
     for name, val in env.items():
-        vm.s[score_of(name, cert)] = val
+        vm.s[vm_key(score_of(name, cert))] = val
     before = dict(vm.s)
     try:
-        vm.run_lines(c["real"])
+        vm.run_lines(vm_text(c["real"]))
     except Invalid as e:
         return dict(kind="invalid-command", detail=str(e), expected=exp, init=env)
     except OutOfFuel:
         return dict(kind="no-termination", init=env)
-    t = score_of(c["target"], cert)
+    t = vm_key(score_of(c["target"], cert))
     got = vm.s.get(t)
     if got != exp:
         return dict(kind="wrong-value", expected=exp, actual=got, init=env)
     for name in env:
-        k = score_of(name, cert)
+        k = vm_key(score_of(name, cert))      # canonical holder: another spelling of the target IS the target
         if k != t and vm.s.get(k) != before.get(k):
             return dict(kind="other-variable-changed", variable=name, before=before.get(k), after=vm.s.get(k), init=env)
     return None
@@ -283,9 +344,18 @@ def model_outputs(cases, idxs):
     return res
 
 
+def selectors_of(cases):
+    """every selector text (as written) of the run"""
+    return sorted({v.split(":", 1)[1] for c in cases for v in (G.vars_of(c["e"]) | {c["target"]}) if not v.startswith("$")})
+
+
 def eval_check(cases, rng, n):
-    """Coq's `eval` (the specification in the theorems) against the Python oracle on sampled states."""
-    picks = [cases[i] for i in sorted(rng.sample(range(len(cases)), min(n, len(cases))))]
+    """Coq's `eval` (the specification in the theorems) against the Python oracle on sampled states, and
+    Coq's `clean_sel` against the harness's on every selector spelling of the run.
+    -> (statements with a different value, selectors cleaned differently, error text)"""
+    br = [i for i, c in enumerate(cases) if c.get("bracketed")]
+    pick_idx = set(rng.sample(range(len(cases)), min(n, len(cases)))) | set(rng.sample(br, min(n // 3, len(br))))
+    picks = [cases[i] for i in sorted(pick_idx)]
     terms, exps = [], []
     kept = []
     for c in picks:
@@ -305,17 +375,24 @@ def eval_check(cases, rng, n):
         "  match eval nm (lookup env) e, exp with Some a, Some b => Z.eqb a b | None, None => true | _, _ => false end.\n"
         "Definition cs := [\n" + ";\n".join(terms) + "\n].\n"
         "Eval vm_compute in Run.Common.bad_indices okc cs.\n")
+    sels = selectors_of(cases)
+    body += ("Definition sels : list (string * string) := " +
+             coq_list(f"({coq_str(x)}, {coq_str(G.clean_sel(x))})" for x in sels) + ".\n"
+             "Eval vm_compute in Run.Common.bad_indices (fun p => String.eqb (clean_sel (fst p)) (snd p)) sels.\n")
     (ok, out), = run_coq_files(PROP, [("evalcheck.v", body)], clean=False, timeout=200)
     if not ok:
-        return None, out[-2000:]
-    m = re.search(r"=\s*(\[[^\]]*\]|nil)", out, re.S)
-    bad = [int(x) for x in re.findall(r"\d+", m.group(1))] if m else [0]
-    return [kept[i]["stmt"] for i in bad], ""
+        return None, None, out[-2000:]
+    ms = re.findall(r"=\s*(\[[^\]]*\]|nil)\s*:\s*list nat", out, re.S)
+    if len(ms) != 2:
+        return None, None, "unexpected output of evalcheck.v: " + out[-2000:]
+    bad, bad_sel = ([int(x) for x in re.findall(r"\d+", m)] for m in ms)
+    return [kept[i]["stmt"] for i in bad], [sels[i] for i in bad_sel], ""
 
 
 # ------------------------------------------------------------------ main
 def replay_obj(c, fail, model=None):
-    return dict(kind=fail["kind"] if fail else "correspondence-differs", statement=c["stmt"], jmc_txt=CERTS[c["cert"]],
+    return dict(kind=fail["kind"] if fail else "correspondence-differs", statement=c["stmt"], target=c["target"],
+                jmc_txt=CERTS[c["cert"]],
                 source="function f() { " + c["stmt"] + " }", emitted=c["real"], int_constants=c["ints"], failure=fail,
                 model_output=model[0] if model else None, model_tags=model[1] if model else None,
                 expected="target = value of the expression (standard precedence, left associative, 32-bit wrap, floor division); "
@@ -333,7 +410,9 @@ def main(tier: str) -> int:
         "Model/ExprSpec.v (eval, render): the specification; render is cross-checked against Python's grammar and Coq's eval "
         "against the Python oracle on every run",
         "outside the model: Python floats in constant folding (float literals, negative exponents: model stops with Unmodelled), "
-        "{command} operands, `:`/`::`/[...] tokens, exponents of a variable base above 256, the JMC tokenizer",
+        "{command} operands, `::` tokens, exponents of a variable base above 256, the JMC tokenizer (an `obj:selector[...]` operand / target "
+        "is ONE variable token whose selector text is cleaned by ExprSpec.clean_sel = clean_up_paren_token on brackets without "
+        "single quotes / escapes / comments; tied by the exact emitted holder text on every bracketed case)",
         "C02_partial / C02_optimize_correct assume 32-bit scores in the initial state (int32_state), which Minecraft guarantees",
         "mcvm.py (untrusted Python VM) is used only to search for failing inputs and to classify known findings",
     ]
@@ -407,11 +486,14 @@ def main(tier: str) -> int:
             for _ in by_tag[t]:
                 ck.known(f["id"], f["what"])
 
-    bad_eval, err = eval_check(cases, ck.rng, 300)
+    bad_eval, bad_sel, err = eval_check(cases, ck.rng, 300)
     if bad_eval is None:
         ck.violation(dict(kind="eval-check-file-failed", log=err), no_input=True)
-    elif bad_eval:
-        ck.violation(dict(kind="coq-eval-differs-from-python-oracle", cases=bad_eval[:5]), no_input=True)
+    else:
+        if bad_eval:
+            ck.violation(dict(kind="coq-eval-differs-from-python-oracle", cases=bad_eval[:5]), no_input=True)
+        if bad_sel:
+            ck.violation(dict(kind="harness-clean_sel-differs-from-ExprSpec.clean_sel", selectors=bad_sel[:5]), no_input=True)
 
     lap("report+evalcheck")
     distinct = len({(c["target"], c["form"], c["src"], c["cert"]) for c in cases if c["e"][0] != "v" and c["e"][0] != "c"})
@@ -425,7 +507,9 @@ def main(tier: str) -> int:
     ck.cov.update(dict(
         evaluations=len(cases), distinct_nontrivial=distinct,
         rule="a case is one statement `target :<form>= expr;` compiled alone; streams: exhaustive depth<=1 over 9 leaves x 6 operators x 6 forms "
-             f"({n_exh}), unary/parenthesised variants, sampled depth-2, flat chains, random trees to depth 5, variable-only trees to depth 6, boundary literals; "
+             f"({n_exh}), bracketed selectors `obj:@e[tag=x, limit=1]`: every (target spelling, operand spelling) pair of one holder "
+             "(blanks, tabs, line breaks, quoted value with a blank) x 13 shapes + other argument order / other objective as different holders, "
+             "also mixed into the random streams; unary/parenthesised variants, sampled depth-2, flat chains, random trees to depth 5, variable-only trees to depth 6, boundary literals; "
              "distinct = distinct (target, form, expression, names) with at least one operator",
         samples=[dict(statement=c["stmt"], emitted=c["real"]) for c in (cases[100:102] + cases[-3:])],
         programs=len(cases), disagreements_checked=len(mism),
@@ -434,6 +518,13 @@ def main(tier: str) -> int:
         failing_programs=len(fails), failing_by_kind=kinds,
         failing_explained_by_known_finding={t: len(v) for t, v in by_tag.items()},
         failing_unexplained=len(res["unexplained"]),
+        bracketed_selector_cases=sum(1 for c in cases if c["bracketed"]),
+        bracketed_target_cases=sum(1 for c in cases if G.is_bracketed(c["target"])),
+        target_respelled_in_expression_cases=sum(1 for c in cases if c["respelled"]),
+        spelling_pairs=len({c["pair"] for c in cases if "pair" in c}),
+        spelling_pair_cases=sum(1 for c in cases if "pair" in c),
+        selector_spellings=len(selectors_of(cases)),
+        bracketed_failing=sum(1 for i in fails if cases[i]["bracketed"]),
         phase_seconds=phases,
         correspondence="model text == real function body (or both <diag> / same <crash Class>), __int__ constants equal as sets",
     ))
@@ -461,11 +552,11 @@ def replay(path: str) -> int:
     for m in re.finditer(r"^scoreboard players set (-?\d+) %s (-?\d+)$" % re.escape(cert["INT"]), load, re.M):
         vm.s[(m.group(1), cert["INT"])] = int(m.group(2))
     for name, val in f["init"].items():
-        vm.s[score_of(name, cert)] = val
-    tgt = o["statement"].split(" :")[0]
+        vm.s[vm_key(score_of(name, cert))] = val
+    tgt = o.get("target") or o["statement"].split(" :")[0]
     try:
-        vm.run_lines(body)
-        got = vm.s.get(score_of(tgt, cert))
+        vm.run_lines(vm_text(body))
+        got = vm.s.get(vm_key(score_of(tgt, cert)))
     except Invalid as e:
         got = f"invalid command: {e}"
     print("initial  :", f["init"])
